@@ -386,10 +386,13 @@ def index_fasta_file(file: Path, buffer_size: int = 250_000):
                 # second to last byte will be ord("\r") == 13
                 line_end_bytes = 2 if line[-2] == 13 else 1
             else:
+                # Remove this line's own line ending, which will be missing if
+                # it is the last line of a file without a final newline.
+                seq = line.rstrip(b"\r\n")
                 if not residues_per_line:
-                    residues_per_line = len(line) - line_end_bytes
+                    residues_per_line = len(seq)
 
-                seq_buffer.write(line[:-line_end_bytes])
+                seq_buffer.write(seq)
                 if seq_buffer.tell() > buffer_size:
                     process_seq_buffer()
 
